@@ -1,7 +1,7 @@
 (* Properties_C15.v -- final statements for property C15 (downstream fragments never exceed the
    negotiated fragment size; sizes below 2 are rejected; fragments of a packet are numbered
    consecutively from 0 and only the final one carries the last-fragment flag).
-   Only statements, each closed by lemmas of ServerFrame / ServerRefine / ServerFragProofs /
+   Only statements, each closed by lemmas of ServerRings / ServerRefine / ServerFragProofs /
    ServerFragNumbering, with Print Assumptions beneath.
 
    Vocabulary
@@ -24,7 +24,7 @@
 From Coq Require Import List NArith ZArith Arith Bool Lia.
 From RecordUpdate Require Import RecordUpdate.
 From Iodine Require Import Generated.SrcConsts Base Codec Hostname DnsName DnsMsg Domain Server
-  ServerFrame ServerRefine ServerFragProofs ServerFragNumbering.
+  ServerRings ServerRefine ServerFragProofs ServerFragNumbering.
 Import ListNotations.
 Local Open Scope N_scope.
 
